@@ -1024,6 +1024,9 @@ func (w *World) privateToDepth(h, owner *ssa.Function, depth int) bool {
 		if root == h {
 			continue
 		}
+		if strings.HasPrefix(root.Synthetic, "wrapper for ") && len(w.CG().CallersOf(root)) == 0 {
+			continue
+		}
 		n++
 		if root == owner {
 			continue
